@@ -28,11 +28,17 @@ func defaultValueT(o *OptDef) *T {
 	case KFloat, KFloatOpt:
 		return Ctor("VFloat", FloatBits(o.DefFloat))
 	case KStrRep:
+		if o.UseVar && o.PreSet {
+			return Ctor("VStrs", List(Str("pre")))
+		}
 		return Ctor("VStrs", List())
 	case KIntRep:
 		return Ctor("VInts", List())
 	case KFloatRep:
 		return Ctor("VFloats", List())
+	}
+	if o.Kind == KMap && o.UseVar && o.PreSet {
+		return Ctor("VMap", List(Pair(Str("pre"), Str("set"))))
 	}
 	return Ctor("VMap", List())
 }
@@ -101,6 +107,8 @@ func tOp(op Op) *T {
 			l = append(l, Nat(i))
 		}
 		return Ctor("BArgFns", tPath(op.Path), List(l...))
+	case "self":
+		return Ctor("BSelf", tPath(op.Path), Str(op.Name), Str(op.Desc))
 	case "synarg":
 		return Ctor("BSynArg", tPath(op.Path), Str(op.Name), Str(op.Desc))
 	case "setfn":
@@ -251,7 +259,7 @@ func runBuild(p *ProgDef, ops []Op) *BuildObs {
 		}
 		root = tNode(d.Root, "", meta)
 		nopts, ncmds = len(d.Options), countNodes(d.Root)
-		if p.Help && jsonOf(ops) == jsonOf(Linearise(p)) {
+		if p.Help && !p.HelpEarly && jsonOf(ops) == jsonOf(Linearise(p)) {
 			for _, h := range inheritanceOracle(p, d.Root) {
 				for _, pid := range []string{"C03", "C10", "C17", "C18"} {
 					obs.Oracle[pid] = append(obs.Oracle[pid], h)
